@@ -127,6 +127,21 @@ func (wc *WebhookController) isCertTypeOK(wh *Webhook) bool {
 	return wc.certType.String() == wh.CertType
 }
 
+// validate checks that the kind and the certificate type of a webhook are
+// spelled the way the controller compares them.
+func (w *Webhook) validate() error {
+	if w == nil {
+		return nil
+	}
+	if k, ok := linkedca.Webhook_Kind_value[w.Kind]; !ok || linkedca.Webhook_Kind(k) == linkedca.Webhook_NO_KIND {
+		return fmt.Errorf("webhook %q has an unknown kind %q", w.Name, w.Kind)
+	}
+	if _, ok := linkedca.Webhook_CertType_value[w.CertType]; !ok && w.CertType != "" {
+		return fmt.Errorf("webhook %q has an unknown certType %q", w.Name, w.CertType)
+	}
+	return nil
+}
+
 type Webhook struct {
 	ID                   string `json:"id"`
 	Name                 string `json:"name"`
